@@ -79,6 +79,9 @@ class Site:
                 root, mode, proj = al
                 if mode == "ref" and not proj:
                     self.events.setdefault(loc, []).append(("call", callee, i))
+                    arg_ty = t["arg_tys"][i] if i < len(t.get("arg_tys", [])) else ""
+                    if arg_ty.startswith("&mut ") and callee not in (SWAP, UNSET_EP, MOVE_PIECE, TAKE_AWAY) and self.b.facts.has_body(callee or ""):
+                        self.an.unmodelled.add((self, loc, callee))
                     if (i + 1) in self.an.clones_param.get(callee, ()):
                         self.publishes.append((loc, "delegate", (callee, i + 1)))
                 elif mode == "val":
@@ -184,6 +187,7 @@ class SuccessorAnalysis:
         self.ep_set_unclear = set()
         self.second_square_write = set()
         self.double_publish = set()
+        self.unmodelled = set()
         self.results = {}   # site -> (before, at_return)
         self.delegate_inits = {}  # callee -> set of states at hand-over
         self._run()
@@ -272,6 +276,10 @@ def get(ctx):
         f._succ_an = SuccessorAnalysis(f)
     an = f._succ_an
     ctx.note_fn(*an.producers.keys())
+    for site, loc, callee in sorted(an.unmodelled, key=lambda x: (x[0].name, x[1])):
+        ctx.ob("%s:unmodelled-mutator:%s" % (site.name, callee.split("::")[-1]), False, site.b.where(loc),
+               "the successor is handed mutably to `%s`, which is not one of the modelled helpers (swap_color, move_piece, take_away_castling_rights, unset_pawn_double_move): its effects on the successor are not analysed, so the typestate obligations cannot be decided" % callee,
+               reason="shape-not-recognised")
     return an
 
 
